@@ -4,6 +4,8 @@ package main
 
 import (
 	"fmt"
+	"os"
+	"runtime/debug"
 	"go/constant"
 	"go/token"
 	"go/types"
@@ -75,6 +77,7 @@ type Obligation struct {
 type State struct {
 	mem       map[*Cell]Val
 	pc        []Term
+	links     []streamLink // buffered readers whose consumption has not been propagated to their source
 	extWrites int    // stores to non-local cells (used to detect effect-free calls)
 	isFact    []bool // parallel to pc: unconditional fact (true) vs path/branch condition (false)
 	panicking bool
@@ -83,7 +86,7 @@ type State struct {
 }
 
 func (s *State) Clone() *State {
-	n := &State{mem: make(map[*Cell]Val, len(s.mem)), panicking: s.panicking, recovered: s.recovered, extWrites: s.extWrites}
+	n := &State{mem: make(map[*Cell]Val, len(s.mem)), panicking: s.panicking, recovered: s.recovered, extWrites: s.extWrites, links: s.links}
 	for k, v := range s.mem {
 		n.mem[k] = v
 	}
@@ -110,6 +113,9 @@ func (s *State) Assume(t Term) {
 	for len(s.isFact) < len(s.pc) {
 		s.isFact = append(s.isFact, false)
 	}
+	if os.Getenv("VCGO_TRACE") != "" && strings.Contains(t.E, "extractMetadata.err") && len(t.E) < 60 {
+		fmt.Println("TRACE assume", t.E, string(debug.Stack()))
+	}
 	s.pc = append(s.pc, t)
 	s.isFact = append(s.isFact, false)
 }
@@ -117,6 +123,9 @@ func (s *State) Assume(t Term) {
 func (s *State) Fact(t Term) {
 	if t.IsTrue() {
 		return
+	}
+	if os.Getenv("VCGO_TRACE") != "" && strings.Contains(t.E, "extractMetadata.err") && len(t.E) < 60 {
+		fmt.Println("TRACE fact", t.E, string(debug.Stack()))
 	}
 	for len(s.isFact) < len(s.pc) {
 		s.isFact = append(s.isFact, false)
